@@ -1,7 +1,7 @@
 from props import tu, run, FCO, NONULL
 from propcfg_names import ORG_NAMES
 
-ORGS = list(range(25))
+ORGS = list(range(27))
 SRC = "harness/c01_storage_bounds.cpp"
 
 CFG = dict(
@@ -25,7 +25,7 @@ CFG = dict(
     exhaustive={"quick": False, "thorough": False},
     exhaustive_domain={"quick": "w,h in {0,1,2,3,5,8,9,16}, 7 alignments, 12 creation paths (all for <=25 pixels, rotating subset above), words to depth 2",
                        "thorough": "w,h in {0,1,2,3,4,5,7,8,9,15,16,17,31,33}, 7 alignments, all 12 creation paths, words to depth 3"},
-    types=ORG_NAMES[:25],
+    types=ORG_NAMES[:27],
     assumptions=["red zones/guard pages detect out-of-block accesses adjacent to either end; far accesses (> 1 page) are not detected by the guard build",
                  "only dereferences are judged; past-the-end pointers are formed and compared but never dereferenced"],
     tus=[tu("c01_asan%d" % k, SRC, "asan", extra=NONULL + ["-DORG=%d" % k]) for k in ORGS]
